@@ -48,6 +48,41 @@ func init() {
 		}
 		return e.inputBytes(st, name, int(lo.C), int(hi.C), 0)
 	}
+	// vBytesC: like vBytes, but the length is concretised by case splitting (small ranges only)
+	harnessAPI["vBytesC"] = func(e *Engine, st *State, a []Value, ci ssa.CallInstruction) Value {
+		name := e.cstr(st, a[0])
+		lo, hi := int(a[1].(BV).T.C), int(a[2].(BV).T.C)
+		if concreteInputs != nil || lo == hi {
+			return e.inputBytes(st, name, lo, hi, 0)
+		}
+		full := e.inputName(st, name)
+		ln := Var("in_"+full+"_len", SBV(64))
+		k := -1
+		for i := lo; i <= hi; i++ {
+			if i == hi || st.decide(Eq(ln, U64(uint64(i)))) {
+				k = i
+				break
+			}
+		}
+		v := e.inputBytes(st, name, lo, hi, 0).(Slice)
+		c := U64(uint64(k))
+		st.addPC(Eq(ln, c))
+		st.wobj(v.Obj).Len = c
+		return Slice{Obj: v.Obj, Off: v.Off, Len: c, Cap: c}
+	}
+	harnessAPI["vSplit"] = func(e *Engine, st *State, a []Value, ci ssa.CallInstruction) Value {
+		n := a[0].(BV).T
+		lo, hi := int(a[1].(BV).T.SVal()), int(a[2].(BV).T.SVal())
+		if n.IsConst() {
+			return a[0]
+		}
+		for i := lo; i <= hi; i++ {
+			if st.decide(Eq(n, I64(int64(i)))) {
+				return BV{I64(int64(i))}
+			}
+		}
+		panic(killSignal{"vSplit: value outside the stated range"})
+	}
 	harnessAPI["vBuf"] = func(e *Engine, st *State, a []Value, ci ssa.CallInstruction) Value {
 		name := e.cstr(st, a[0])
 		lo, hi, sp := a[1].(BV).T, a[2].(BV).T, a[3].(BV).T
@@ -299,12 +334,14 @@ func (e *Engine) inputBytes(st *State, name string, lo, hi, spare int) Value {
 		ln = U64(uint64(lo))
 	} else {
 		ln = Var("in_"+full+"_len", SBV(64))
+		varBounds["in_"+full+"_len"] = uint64(hi)
 		st.addPC(And(BVUle(U64(uint64(lo)), ln), BVUle(ln, U64(uint64(hi)))))
 	}
 	cp := ln
 	var capT *Term
 	if spare > 0 {
 		capT = Var("in_"+full+"_spare", SBV(64))
+		varBounds["in_"+full+"_spare"] = uint64(spare)
 		st.addPC(BVUle(capT, U64(uint64(spare))))
 		cp = BVAdd(ln, capT)
 	}
